@@ -363,7 +363,10 @@ class Ctx:
                 kf.append((f, hit))
             else:
                 viol.append(f)
-        rdir = os.path.join(VERIF, "replay", self.prop)
+        # runs against a scratch copy of the repository (VERIF_REPO) keep their
+        # evidence and replays apart from those of /repo itself
+        outroot = VERIF if self.key == "main" else self.build
+        rdir = os.path.join(outroot, "replay", self.prop)
         os.makedirs(rdir, exist_ok=True)
         lines = []
         for f, k in kf:
@@ -398,8 +401,8 @@ class Ctx:
             "coverage": cov, "assumptions": (assumptions or []) + self.assumptions,
             "wall_s": round(time.time() - self.t0, 2), "violations": nviol,
         }
-        os.makedirs(os.path.join(VERIF, "evidence"), exist_ok=True)
-        json.dump(ev, open(os.path.join(VERIF, "evidence", self.prop + ".json"), "w"), indent=1, default=str)
+        os.makedirs(os.path.join(outroot, "evidence"), exist_ok=True)
+        json.dump(ev, open(os.path.join(outroot, "evidence", self.prop + ".json"), "w"), indent=1, default=str)
         for l in lines:
             print(l, flush=True)
         self.log("done: %d violation(s), %d known finding(s), obligations %d/%d" % (nviol, len(kf), self.discharged, self.obligations))
